@@ -1,6 +1,7 @@
 package main
 
 import (
+	"bytes"
 	"fmt"
 	"github.com/ldclabs/cose/cose"
 	"github.com/ldclabs/cose/cwt"
@@ -63,6 +64,27 @@ func execMap(op string, a []string) string {
 			b3, _ := kv.MarshalCBOR()
 			if string(b1) != string(b0) || string(b2) != string(b0) || string(b3) != string(b0) {
 				return "VIEWS-DISAGREE on the value: CoseMap=" + hx(b0) + " Headers=" + hx(b1) + " ClaimsMap=" + hx(b2) + " Key=" + hx(b3)
+			}
+		}
+		return "same"
+	case "map.tagkeep":
+		// map.tagkeep <hex>: a deterministically encoded label map holding values under CBOR tags the library has no
+		// business with (uuid, uri, encoded CBOR, private tags): every view decodes it and encodes it back octet for octet
+		data := unhx(a[0])
+		var cm key.CoseMap
+		var hv cose.Headers
+		var cv cwt.ClaimsMap
+		var kv key.Key
+		if e0, e1, e2, e3 := cm.UnmarshalCBOR(data), hv.UnmarshalCBOR(data), cv.UnmarshalCBOR(data), kv.UnmarshalCBOR(data); e0 != nil || e1 != nil || e2 != nil || e3 != nil {
+			return "TAGGED-VALUE-REFUSED"
+		}
+		b0, _ := cm.MarshalCBOR()
+		b1, _ := hv.MarshalCBOR()
+		b2, _ := cv.MarshalCBOR()
+		b3, _ := kv.MarshalCBOR()
+		for _, b := range [][]byte{b0, b1, b2, b3} {
+			if !bytes.Equal(b, data) {
+				return "TAGGED-VALUE-REWRITTEN " + hx(b)
 			}
 		}
 		return "same"
@@ -313,6 +335,11 @@ func genMap(r *rand.Rand, n int) []string {
 			}
 			fx := fixed[(len(out)/14)%len(fixed)]
 			out = append(out, "map.unmarshal "+fx, "map.views "+fx)
+			tagged := []string{
+				"a107d82550000102030405060708090a0b0c0d0e0f", "a10ad82068687474703a2f2f61", "a201261828d903e8820102", "a120d8184101",
+				"a104da0001000000", "a105d825d8206178", "a1636a7469d8255000112233445566778899aabbccddeeff",
+			}
+			out = append(out, "map.tagkeep "+tagged[(len(out)/14)%len(tagged)])
 		}
 	}
 	return out
